@@ -12,6 +12,7 @@ had to verify; the receiver's execution also goes to TLC as an ordinary BP trace
 '''
 import datetime
 import hashlib
+import itertools
 import random
 import re
 
@@ -167,15 +168,16 @@ def _capturing_clout(self, data, tx_params):
 BpWorld.on_clout = _capturing_clout
 
 
-def base_bundle(k, payload_len=5, with_other=True, target_ext=False):
+def base_bundle(k, payload_len=5, with_other=True, target_ext=False, ts0=None):
     ''' Unsecured bundle from the security source to the probe application. '''
+    ts0 = TS0 if ts0 is None else ts0
     ext = []
     if with_other:
         ext.append(unknown(7, 2, flags=0))
     if target_ext:
         ext.append(blk(193, 5, bp7.enc([9, 'ext-target']), flags=0))
     pay = bytes((i * 11 + k) % 251 for i in range(payload_len))
-    return mk(src=SRC_NODE + 'app', dest=PROBE, rpt='dtn://rpt/r', ts=(TS0 + k, k % 5), flags=F['DELREP'] | F['DLVREP'],
+    return mk(src=SRC_NODE + 'app', dest=PROBE, rpt='dtn://rpt/r', ts=(ts0 + k, k % 5), flags=F['DELREP'] | F['DLVREP'],
               pay=pay, crc=0, ext=ext), pay
 
 
@@ -737,6 +739,62 @@ def receive_fragments(frags, order, keymode, accept, label, nsec, plain):
     return world.finish({})
 
 
+# creation time after the end of the certificates' validity (2035-01-01)
+TS_EXPIRED = int((datetime.datetime(2036, 6, 1, tzinfo=datetime.timezone.utc)
+                  - datetime.datetime(2000, 1, 1, tzinfo=datetime.timezone.utc)).total_seconds() * 1000)
+
+
+def produce_signed(k, secsrc=SRC_NODE, ts0=None, payload_len=5):
+    ''' A bundle signed (COSE_Sign1, certificate chain in the header) by a real source agent whose node ID - the
+    security source named in the integrity block - is ``secsrc``; the certificate always names SRC_NODE. '''
+    octets, pay = base_bundle(k, payload_len, ts0=ts0)
+    del _CAPTURE[:]
+    world = BpWorld(node_id=secsrc, tx_routes=[('dtn://', 'next', None)], setup=source_setup('sign1'))
+    world.send(octets)
+    world.run_idle()
+    outs = [o for o in _CAPTURE]
+    if len(outs) != 1:
+        raise RuntimeError('source agent produced %d bundles' % len(outs))
+    return outs[0], pay
+
+
+def receive_history(items, accept):
+    ''' One long-running receiver gets a sequence of bundles: what it learnt from one (keys, certificates) must not
+    make it accept another.  items: [(octets, label, nsec, payload)] '''
+    world = BpWorld(node_id='dtn://node/', rx_routes=[(PROBE, 'deliver')], tx_routes=[('dtn://rpt/', 'dtn://rpt/', None)],
+                    accept=accept, setup=dest_setup('right'))
+    for (octets, label, nsec, pay) in items:
+        world.recv(octets, sec=label, plain=dig(pay) if label == 'good' else '', nsec=nsec)
+        world.run_idle()
+    return world.finish({})
+
+
+def cert_history_executions(tier, seed):
+    ''' Certificate-based integrity over a receiver's lifetime: genuine bundles of the certificate's holder, bundles
+    signed with the same key and chain but naming another security source, and bundles created after the
+    certificate expired - in every order of up to three. '''
+    kinds = {
+        'genuine': lambda k: produce_signed(k) + ('good',),
+        'other_secsrc': lambda k: produce_signed(k, secsrc='dtn://victim/') + ('bad',),
+        'expired': lambda k: produce_signed(k, ts0=TS_EXPIRED) + ('bad',),
+    }
+    traces, metas = [], []
+    seqs = [s for n in (1, 2, 3) for s in itertools.product(sorted(kinds), repeat=n)]
+    if tier == 'quick':
+        rnd = random.Random(seed * 17 + 2)
+        seqs = [s for s in seqs if len(s) < 3] + rnd.sample([s for s in seqs if len(s) == 3], 8)
+    k = 7000 + (seed % 50) * 40
+    for (i, seq) in enumerate(seqs):
+        items = []
+        for name in seq:
+            k += 1
+            (octets, pay, label) = kinds[name](k)
+            items.append((octets, label, 1, pay))
+        traces.append(receive_history(items, accept=bool(i % 2)))
+        metas.append({'variant': 'certificate-history', 'sequence': list(seq), 'accept': bool(i % 2)})
+    return traces, metas
+
+
 def c12_executions(tier, seed):
     rnd = random.Random(seed * 41 + 12)
     traces, metas = [], []
@@ -772,6 +830,9 @@ def c12_executions(tier, seed):
                         traces.append(receive_fragments(frags, order, keymode, accept, label, nsec, dig(pay)))
                         metas.append({'variant': variant, 'key': keymode, 'accept': accept, 'label': label,
                                       'fragments': len(frags), 'order': order})
+    (htr, hme) = cert_history_executions(tier, seed)
+    traces += htr
+    metas += hme
     # cases of the coverage sweep whose verdict the independent implementation knows
     events, ctraces, cmetas = cover_cases(tier, seed, ('mac0', 'enc0'))
     for (ev, tr, me) in zip(events[:-1], ctraces, cmetas):
